@@ -26,6 +26,7 @@ type cfgShape struct {
 	Env    [][2]string
 	Except []string
 	Preset bool
+	Extra  string // further lines of the block
 }
 
 func (k *cfgShape) rulePath() string {
@@ -47,6 +48,7 @@ func (k *cfgShape) block(addr string) string {
 	if len(k.Except) > 0 {
 		fmt.Fprintf(&b, "  except %s\n", strings.Join(k.Except, " "))
 	}
+	b.WriteString(k.Extra)
 	b.WriteString(" }\n")
 	return b.String()
 }
@@ -57,7 +59,10 @@ func shapes() []*cfgShape {
 		{ID: 1, Name: "php-goref", Base: "", Ext: ".php", Split: ".php", Index: "index.php", Preset: true, Ref: true},
 		{ID: 2, Name: "custom-scripted", Base: "/app", Ext: ".cgx", Split: ".cgx", Index: "main.cgx",
 			Env:    [][2]string{{"APP_MODE", "prod"}, {"C13_EMPTY", ""}, {"C13_SPACED", "a b  c"}, {"C13_METHOD", "{method}"}, {"C13_LONG", strings.Repeat("v", 300)}},
-			Except: []string{"/static", "/skip.cgx"}},
+			Except: []string{"/static", "/skip.cgx"},
+			// the time to hand the request over is limited much more tightly
+			// than the time the responder may take to answer
+			Extra: "  send_timeout 1s\n  read_timeout 60s\n"},
 		{ID: 3, Name: "mixedcase-goref", Base: "/cgi", Ext: ".PhP", Split: ".Php", Index: "Index.PHP", Ref: true,
 			Env: [][2]string{{"C13_K3", "v3"}, {"C13_URI", "{uri}"}}},
 	}
@@ -153,6 +158,8 @@ type reply struct {
 	BodyLen    int
 	BodyTag    uint64
 	Stderr     string
+	ThinkMs    int // the responder waits that long before its first byte
+	Burst      int // stderr sent as that many one-line records in a row
 	Cut        string
 	PadMode    string
 	Seg        int
@@ -588,6 +595,16 @@ func genReply(r *lib.Rng, k *kase, heavy bool) *reply {
 			b.WriteString(fmt.Sprintf("-end%x\n", r.U64()))
 			k.feat("stderr-multi-record")
 		}
+		if r.Chance(1, 6) {
+			// one record per log line, hundreds of them back to back (php-fpm
+			// logging a loop of warnings) at one place of the stdout stream
+			b.Reset()
+			rp.Burst = []int{99, 100, 120, 350, 1000}[r.Intn(5)]
+			for i := 0; i < rp.Burst; i++ {
+				fmt.Fprintf(&b, "c13err-%d-%d-%x\n", k.N, i, r.U64())
+			}
+			k.feat("stderr-record-burst")
+		}
 		rp.Stderr = b.String()
 		k.feat("stderr")
 	}
@@ -596,7 +613,13 @@ func genReply(r *lib.Rng, k *kase, heavy bool) *reply {
 	if r.Chance(1, 3) {
 		rp.Seg = []int{1, 7, 8, 9, 1000, 65543}[r.Intn(6)]
 	}
+	if k.Cfg.Extra != "" && r.Chance(1, 40) {
+		// a responder that thinks for longer than send_timeout (and far less than read_timeout)
+		rp.ThinkMs = 1500
+		k.feat("slow-responder")
+	}
 	buildScript(r, k, rp)
+	rp.sc.ThinkMs = rp.ThinkMs
 	k.feat("cut:" + rp.Cut)
 	k.feat("pad:" + rp.PadMode)
 	if rp.Seg > 0 {
@@ -722,7 +745,9 @@ func buildScript(r *lib.Rng, k *kase, rp *reply) {
 		e := []byte(rp.Stderr)
 		for len(e) > 0 {
 			n := len(e)
-			if n > 65535 {
+			if rp.Burst > 0 {
+				n = bytes.IndexByte(e, '\n') + 1
+			} else if n > 65535 {
 				n = 65535
 			} else if n > 4 && r.Chance(1, 2) {
 				n = 1 + r.Intn(n-1)
@@ -752,6 +777,21 @@ func buildScript(r *lib.Rng, k *kase, rp *reply) {
 	pos := make([]int, len(epieces))
 	for i := range pos {
 		pos[i] = r.Intn(len(pieces) + 2) // len(pieces)+1 = after the closing stdout record
+	}
+	if rp.Burst > 0 {
+		// the whole burst at one place: before any stdout, inside the header
+		// block (when that is cut), between later records, after the end
+		at := r.Intn(len(pieces) + 2)
+		if r.Chance(2, 3) {
+			at = r.Intn(3)
+			if at > len(pieces)+1 {
+				at = len(pieces) + 1
+			}
+		}
+		for i := range pos {
+			pos[i] = at
+		}
+		k.feat(fmt.Sprintf("stderr-record-burst-at:%d", min(at, 3)))
 	}
 	sort.Ints(pos)
 	ei := 0
